@@ -480,6 +480,64 @@ pub fn run(ctx: &Ctx) -> Report {
         rep.merge(r);
     }
 
+    // ---- malformed input INSIDE an established TLS session (the second handshake parse of init())
+    if let Some(m) = &tlsm {
+        let caps = 0x003f_a685 | wire::CLIENT_SSL;
+        let h41 = wire::handshake41(caps, 1 << 24, 0x21, b"tlsuser", b"\x00");
+        let mut apps: Vec<(String, Vec<u8>)> = vec![("nothing (close right after the TLS handshake)".into(), vec![])];
+        for cut in 0..=h41.len() {
+            apps.push(("handshake response payload truncated".into(), wire::raw_packet(&h41[..cut], 2)));
+            let full = wire::raw_packet(&h41, 2);
+            apps.push(("handshake response stream truncated".into(), full[..(cut + 4).min(full.len())].to_vec()));
+        }
+        apps.push(("3.20 layout after TLS".into(), wire::raw_packet(&wire::handshake320(0x0005, 1 << 20, b"old", b""), 2)));
+        apps.push(("random bytes".into(), vec![0x17, 0x03, 0x03, 0x00, 0x01, 0xFF, 0x00, 0x09, 0x99]));
+        let mut ok_then_bad = wire::raw_packet(&h41, 2);
+        ok_then_bad.extend(wire::raw_packet(&[], 0));
+        apps.push(("valid handshake then an empty packet".into(), ok_then_bad));
+        let mut ok_then_trunc = wire::raw_packet(&h41, 2);
+        ok_then_trunc.extend_from_slice(&[0x05, 0x00, 0x00, 0x00, 0x03, b's']);
+        apps.push(("valid handshake then a truncated command".into(), ok_then_trunc));
+        if ctx.miri {
+            apps.clear();
+        }
+        let aref = &apps;
+        let r = par_cases(ctx, "C20", "inside-tls", apps.len() as u64, |rng, i, rep| {
+            let (what, app) = &aref[i as usize];
+            let c = super::c18::TlsCase { tls13: rng.bool(), with_cert: false, server_mode: 0, user: b"tlsuser".to_vec(), cmds: vec![], scripts: vec![], first_cut: 0, cycle: if rng.bool() { vec![] } else { vec![rng.range(1, 50) as usize] }, write_limit: usize::MAX, close_notify: rng.bool(), app_override: Some(app.clone()) };
+            let o = match super::c18::run_tls(m, &c) {
+                Ok(o) => o,
+                Err(e) => {
+                    rep.inconclusive.push(format!("TLS harness error: {}", e));
+                    return;
+                }
+            };
+            rep.evaluations += 1;
+            let d = || J::obj().set("generator", "malformed plaintext inside an established TLS session").set("mutation", what.clone()).set("plaintext", hex(&app[..app.len().min(80)])).set("outcome", o.outcome.describe());
+            if i == 0 {
+                rep.sample(d());
+            }
+            rep.counters.inc(&format!("outcome_{}", o.outcome.class().to_lowercase()));
+            match &o.outcome {
+                Outcome::Panic { file, line, msg } if !is_harness_file(file) => {
+                    rep.counters.class(format!("inside TLS: {} -> panic", what));
+                    rep.violations.push(viol("C20", format!("C20 {}", panic_signature(file, *line, msg)), format!("client bytes inside TLS ({}) made run_on panic: {}", what, o.outcome.describe()), d()));
+                }
+                Outcome::Panic { file, line, msg } => rep.inconclusive.push(format!("harness panic at {}:{}: {}", file, line, trunc(msg, 100))),
+                other => rep.counters.class(format!("inside TLS: {} -> {}", what, other.class())),
+            }
+            if o.world.wedged {
+                rep.violations.push(viol("C20", format!("C20 wedge inside TLS: {}", what), "operation budget exhausted".into(), d()));
+            }
+            if let Err(e) = tls::tls_records(&o.world.server_raw_after) {
+                rep.violations.push(viol("C20", format!("C20 not-tls-after-upgrade inside TLS: {}", what), e, d()));
+            } else {
+                rep.counters.inc("tls_phase_outputs_checked");
+            }
+        });
+        rep.merge(r);
+    }
+
     // ---- (c) random bytes
     let n = if ctx.miri { 6 } else { ctx.n(20_000, 2_000_000) };
     let r = par_cases(ctx, "C20", "random", n, |rng, i, rep| {
